@@ -692,7 +692,7 @@ def create_aliases(nd: AstNode, num_occurrences: dict[str, int]) -> dict[str, in
     if isinstance(nd, verbs.Verb):
         num_occurrences = create_aliases(nd.child, num_occurrences)
 
-        if isinstance(nd, verbs.Join):
+        if isinstance(nd, verbs.Join | verbs.Union):
             num_occurrences = create_aliases(nd.right, num_occurrences)
 
     elif isinstance(nd, TableImpl):
@@ -715,7 +715,7 @@ def get_engine(nd: AstNode) -> sqa.Engine:
     if isinstance(nd, verbs.Verb):
         engine = get_engine(nd.child)
 
-        if isinstance(nd, verbs.Join):
+        if isinstance(nd, verbs.Join | verbs.Union):
             right_engine = get_engine(nd.right)
             if engine.url != right_engine.url:
                 raise NotImplementedError  # TODO: find some good error for this
